@@ -455,3 +455,68 @@ Proof. vm_compute. reflexivity. Qed.
 Example C01_print_line_example :
   print_line oracle_trivial [VStr "t={}"; VNum (num_of_Z 1)] = Ok "t=1".
 Proof. vm_compute. reflexivity. Qed.
+
+(* ---- program TEXT -> outputs as ONE model (coq/TextRun.v: Peg.parse on gen/Grammar.v, PegToItems.conv,
+        Pratt.pratt_impl per statement, the statement loop over the complete evaluator), tied to the real
+        `parse + evaluate + outputs` by the TEXT-EVAL stream.  Facts by composition (proofs/TextRunFacts.v):
+        (a) THE PARSER STAGE NEVER DIVERGES: with the model's fuel [peg_fuel text] = 128 + 48 * bytes the PEG
+            interpreter never returns OutOfFuel, for EVERY text (C10_peg_total: termination certificate of the
+            regenerated grammar, proofs/PegFuel.v) — so acceptance / rejection is a total function of the text;
+        (b) the result of a text run does not depend on the fuel above that bound;
+        (c) the only Unmodelled a text run can show is the Pratt MODEL's own fuel (TGlueFuel; the TEXT-EVAL
+            stream counts it: 0) — the evaluator over the complete dispatcher never answers Unmodelled;
+        (d) every top-level pair the statement loop walks over lies inside the text.
+        Names of Peg.v / Grammar.v clash with the evaluator's (Ok, run, expr): kept inside a module. ---- *)
+Require Blots.Peg Blots.gen.Grammar Blots.proofs.PegGeneric Blots.TextRun Blots.proofs.TextRunFacts.
+Module TextLayer.
+Import Blots.TextRun Blots.proofs.TextRunFacts.
+
+Theorem C01_text_parse_total : forall text,
+  parse_text_stmts text <> TIFuel /\ forall eval inputs, run_text_res eval inputs text <> TParseFuel.
+Proof. intro text. split; [apply parse_text_stmts_total|intros; apply run_text_never_parse_fuel]. Qed.
+Check C01_text_parse_total : forall text,
+  parse_text_stmts text <> TIFuel /\ forall eval inputs, run_text_res eval inputs text <> TParseFuel.
+Print Assumptions C01_text_parse_total.
+
+Theorem C01_text_run_fuel_independent : forall eval fuel inputs text,
+  Blots.Peg.peg_fuel text <= fuel -> run_text_res_fuel eval fuel inputs text = run_text_res eval inputs text.
+Proof. exact run_text_fuel_independent. Qed.
+Check C01_text_run_fuel_independent : forall eval fuel inputs text,
+  Blots.Peg.peg_fuel text <= fuel -> run_text_res_fuel eval fuel inputs text = run_text_res eval inputs text.
+Print Assumptions C01_text_run_fuel_independent.
+
+Theorem C01_text_run_never_unmodelled : forall o inputs text l,
+  parse_text_stmts text = TIOk l -> Forall (fun t => t <> TGlueFuel) l ->
+  exists sr, run_text_res (eval_all o) inputs text = TRun sr
+             /\ Forall (fun rs => fst rs <> RFail Unmodelled) (snd sr).
+Proof. exact run_text_never_unmodelled. Qed.
+Check C01_text_run_never_unmodelled : forall o inputs text l,
+  parse_text_stmts text = TIOk l -> Forall (fun t => t <> TGlueFuel) l ->
+  exists sr, run_text_res (eval_all o) inputs text = TRun sr
+             /\ Forall (fun rs => fst rs <> RFail Unmodelled) (snd sr).
+Print Assumptions C01_text_run_never_unmodelled.
+
+(* without glue trouble the text loop is Program.run on the parsed statements: every theorem about
+   run / run_program_all above applies to text runs *)
+Theorem C01_text_run_is_program_run : forall eval p s,
+  run_tstmts eval s (map TStmt p) = Blots.Program.run eval s p.
+Proof. exact run_tstmts_is_run. Qed.
+Check C01_text_run_is_program_run : forall eval p s,
+  run_tstmts eval s (map TStmt p) = Blots.Program.run eval s p.
+Print Assumptions C01_text_run_is_program_run.
+
+Theorem C01_text_statement_spans_inside : forall fuel text s',
+  Blots.Peg.parse Blots.gen.Grammar.blots_grammar fuel Blots.gen.Grammar.PG_input text = Blots.Peg.Ok s' ->
+  Forall (span_inside (Blots.Peg.slen text)) (rev (Blots.Peg.out s')).
+Proof. intros fuel text s' H. exact (proj1 (text_statement_spans_inside fuel text s' H)). Qed.
+Check C01_text_statement_spans_inside : forall fuel text s',
+  Blots.Peg.parse Blots.gen.Grammar.blots_grammar fuel Blots.gen.Grammar.PG_input text = Blots.Peg.Ok s' ->
+  Forall (span_inside (Blots.Peg.slen text)) (rev (Blots.Peg.out s')).
+Print Assumptions C01_text_statement_spans_inside.
+
+(* the one model RUNS on a text (blanks, a comment, an output declaration): *)
+Example C01_text_run_example :
+  run_text oracle_trivial [] ("x = 2 * 4  // eight" ++ String (Ascii.ascii_of_nat 10) "output y = [x, x + 1]")
+  = "OK:N4020000000000000|OK:L[N4020000000000000,N4022000000000000];ENV:78=N4020000000000000,79=L[N4020000000000000,N4022000000000000];OUT:79=L[N4020000000000000,N4022000000000000]".
+Proof. vm_compute. reflexivity. Qed.
+End TextLayer.
